@@ -57,7 +57,9 @@ def judge(ctx, flat, obs, health, dm_log, what, spec, stats):
         elif cl["kind"] in ("ping", "status"):
             if o["reply"] not in cl["allowed"]:
                 fails.append(dict(defect="reply_not_allowed", client=cl["id"], kind=cl["kind"], detail="reply %s" % o["reply"]))
-            if cl["kind"] == "status" and o.get("status_n") is not None and not (1 <= o["status_n"] <= len(flat) + 1):
+            # the daemon was idle when the round began (checked by the caller), so only this round's sessions and the
+            # tail of the caller's own STATUS probe can be counted
+            if cl["kind"] == "status" and o.get("status_n") is not None and not (1 <= o["status_n"] <= len(flat) + 2):
                 fails.append(dict(defect="status_out_of_range", client=cl["id"], kind="status", detail="active_clients=%d with %d clients" % (o["status_n"], len(flat))))
         elif o.get("unobserved"):
             stats["unobserved"] += 1          # the client closed its socket: nothing to see from this side
@@ -116,6 +118,17 @@ def run_rounds(ctx, bench, variant, rounds, findings, stats, tag, yield_seed=0, 
                     shared = new_daemon()
                 dm = shared
             pre = len(dm.stderr_text())
+            if not hostile and stats["rounds"] > 0:
+                # sessions abandoned in earlier rounds (client gone, program still printing) must drain first
+                n0 = dm.wait_idle(60)
+                if n0 != 1:
+                    path = ctx.save_replay("idle_%s_%d.json" % (tag, i), json.dumps(dict(prop="C18", kind="idle", variant=variant, active=n0,
+                                                                                     before_round=i, stderr=dm.stderr_text()[-2000:]), indent=1))
+                    ctx.violation("%s: before round %d the daemon reports active_clients=%r (expected 1): an earlier session never ended" % (tag, i, n0), path)
+                    stats["violations"] += 1
+                    shared.stop()
+                    shared = dm = new_daemon()
+                    pre = 0
             try:
                 flat, obs = play_on(dm, rd)
                 health = dm.health()
